@@ -15,6 +15,12 @@ open Goyang.Model Goyang.Spec.Registry Goyang.Lemmas.StrOrd
 /-- The name contains no `@` (YANG identifiers never do). -/
 def NoAt (s : String) : Prop := '@' ∉ s.toList
 
+theorem contains_of_noAt {s : String} (h : NoAt s) : s.toList.contains '@' = false := by
+  simpa [NoAt] using h
+
+theorem noAt_of_contains {s : String} (h : s.toList.contains '@' = false) : NoAt s := by
+  simpa [NoAt] using h
+
 theorem toList_key (a r : String) : (a ++ "@" ++ r).toList = a.toList ++ '@' :: r.toList := by
   simp [String.toList_append]
 
@@ -855,7 +861,8 @@ theorem add_step {r : Registry} {L : List Stmt} {s : Stmt} (inv : Inv r L)
   have hbeq : ((⟨r.mods.length, s⟩ : Mod).fullName == (hdr s).name) = decide ((hdr s).rev = "") :=
     fullName_beq_name ⟨r.mods.length, s⟩
   have hs' : NoAt (hdr s).name := hs
-  unfold Registry.add
+  rw [Registry.add_eq_addChecked (contains_of_noAt hs)]
+  unfold Registry.addChecked
   simp only [e2, e3, hbeq]
   by_cases hc : (hdr s).rev = ""
   · simp only [hc, decide_true, if_true]
@@ -1163,5 +1170,186 @@ theorem denotesS_eq_denotes {hs : List Header} (hw : ∀ h ∈ hs, WellFormedRev
   unfold denotesS denotes
   simp only [this]
   rfl
+
+/-! ### arbitrary names: a name with `@` is refused by `add` itself (D61) -/
+
+/-- The load can be accepted at all: its name has no `@`. -/
+def good (s : Stmt) : Bool := !s.arg.toList.contains '@'
+
+theorem good_eq_nameOk (s : Stmt) : good s = nameOk (hdr s) := rfl
+
+theorem noAt_of_good {s : Stmt} (h : good s = true) : NoAt s.arg := by
+  apply noAt_of_contains; simpa [good] using h
+
+theorem good_of_noAt {s : Stmt} (h : NoAt s.arg) : good s = true := by
+  unfold good; rw [contains_of_noAt h]; rfl
+
+/-- `add_accepts_only_ok_names`: whatever `add` accepts has a name without `@`. -/
+theorem add_accepts_only_ok_names {r r' : Registry} {s : Stmt} (h : r.add s = .ok r') : NoAt s.arg :=
+  noAt_of_contains (Registry.add_ok h).1
+
+def toOutcome : Option Registry.AddErr → Outcome
+  | none => .ok
+  | some (.duplicate _ _) => .dup
+  | some (.badName _ _) => .badName
+
+theorem isSome_eq_toOutcome (o : Option Registry.AddErr) : o.isSome = (toOutcome o != .ok) := by
+  rcases o with _ | ⟨_ | _⟩ <;> rfl
+
+theorem addChecked_error {r : Registry} {s : Stmt} {e : Registry.AddErr} (h : r.addChecked s = .error e) :
+    toOutcome (some e) = .dup := by
+  unfold Registry.addChecked at h
+  simp only at h
+  repeat' split at h
+  all_goals first
+    | (cases h; rfl)
+    | cases h
+
+theorem add_error_good {r : Registry} {s : Stmt} {e : Registry.AddErr} (hg : good s = true)
+    (h : r.add s = .error e) : toOutcome (some e) = .dup := by
+  rw [Registry.add_eq_addChecked (contains_of_noAt (noAt_of_good hg))] at h
+  exact addChecked_error h
+
+theorem add_error_bad {r : Registry} {s : Stmt} (hg : good s = false) :
+    ∃ e, r.add s = .error e ∧ toOutcome (some e) = .badName := by
+  have hc : s.arg.toList.contains '@' = true := by simpa [good] using hg
+  unfold Registry.add
+  rw [if_pos hc]
+  exact ⟨_, rfl, rfl⟩
+
+/-- The outcomes of loading `ss` — any names — into a registry that has seen the loadable loads
+`L`, and the final invariant: only loadable loads count. -/
+theorem loadFrom_specG : ∀ (ss : List Stmt) {r : Registry} {L : List Stmt}, Inv r L →
+    (∀ t ∈ L, NoAt t.arg) →
+    Inv (r.loadFrom ss).1 (L ++ ss.filter good) ∧
+    (r.loadFrom ss).2.map toOutcome = outcomesAfterG (L.map hdr) (ss.map hdr)
+  | [], r, L, inv, _ => by simpa [Registry.loadFrom, outcomesAfterG] using inv
+  | s :: rest, r, L, inv, hL => by
+    unfold Registry.loadFrom
+    cases hg : good s with
+    | false =>
+      obtain ⟨e, he, hk⟩ := add_error_bad (r := r) hg
+      obtain ⟨ih1, ih2⟩ := loadFrom_specG rest inv hL
+      have hn : nameOk (hdr s) = false := by rw [← good_eq_nameOk]; exact hg
+      rw [he]
+      simp only [List.map_cons, outcomesAfterG, hn, Bool.false_eq_true, if_false, List.filter_cons, hg]
+      exact ⟨ih1, by rw [hk, ih2]⟩
+    | true =>
+      have hs : NoAt s.arg := noAt_of_good hg
+      have hn : nameOk (hdr s) = true := by rw [← good_eq_nameOk]; exact hg
+      have hL' : ∀ t ∈ L ++ [s], NoAt t.arg := by
+        intro t ht
+        rcases List.mem_append.mp ht with ht | ht
+        · exact hL t ht
+        · simp only [List.mem_singleton] at ht; subst ht; exact hs
+      have step := add_step inv hs hL
+      cases hadd : r.add s with
+      | ok r' =>
+        rw [hadd] at step
+        obtain ⟨hnew, inv'⟩ := step
+        obtain ⟨ih1, ih2⟩ := loadFrom_specG rest inv' hL'
+        have hc : (L.map hdr).contains (hdr s) = false := by simpa using hnew
+        simp only [List.map_cons, outcomesAfterG, hn, if_true, List.filter_cons, hg, hc, Bool.false_eq_true,
+          if_false, toOutcome]
+        refine ⟨by simpa using ih1, ?_⟩
+        rw [ih2, List.map_append]; rfl
+      | error e =>
+        rw [hadd] at step
+        obtain ⟨hd, inv'⟩ := step
+        obtain ⟨ih1, ih2⟩ := loadFrom_specG rest inv' hL'
+        have hc : (L.map hdr).contains (hdr s) = true := by simpa using hd
+        simp only [List.map_cons, outcomesAfterG, hn, if_true, List.filter_cons, hg, hc]
+        refine ⟨by simpa using ih1, ?_⟩
+        rw [add_error_good hg hadd, ih2, List.map_append]; rfl
+
+/-- Loading any statements into a fresh registry. -/
+theorem loadAll_specG (ss : List Stmt) :
+    Inv (Registry.loadAll ss).1 (ss.filter good) ∧
+    (Registry.loadAll ss).2.map toOutcome = outcomesG (ss.map hdr) := by
+  have := loadFrom_specG ss inv_empty (by simp)
+  simpa [Registry.loadAll, outcomesG] using this
+
+theorem noAt_filter_good (ss : List Stmt) : ∀ t ∈ ss.filter good, NoAt t.arg := by
+  intro t ht
+  exact noAt_of_good (List.mem_filter.mp ht).2
+
+theorem map_hdr_filter_good (ss : List Stmt) : (ss.filter good).map hdr = loadable (ss.map hdr) := by
+  unfold loadable
+  rw [List.filter_map]
+  rfl
+
+/-- Every registry reached from the empty one by loads holds only modules with `@`-free names. -/
+theorem loadAll_names_ok (ss : List Stmt) : ∀ m ∈ (Registry.loadAll ss).1.mods, NoAt m.stmt.arg := by
+  intro m hm
+  exact noAt_filter_good ss _ ((loadAll_specG ss).1.src m hm)
+
+/-! #### the rejected headers, arbitrary names -/
+
+/-- The headers of the loads that are not accepted. -/
+def rejAfterG (before : List Header) : List Header → List Header
+  | [] => []
+  | h :: rest =>
+    if nameOk h then (if before.contains h then [h] else []) ++ rejAfterG (before ++ [h]) rest
+    else h :: rejAfterG before rest
+
+theorem rejAfterG_eq (before hs : List Header) :
+    ((hs.zip ((outcomesAfterG before hs).map (· != .ok))).filter (·.2)).map (·.1) = rejAfterG before hs := by
+  induction hs generalizing before with
+  | nil => rfl
+  | cons h rest ih =>
+    unfold outcomesAfterG rejAfterG
+    cases hn : nameOk h with
+    | false => simp [ih]
+    | true =>
+      by_cases hb : h ∈ before <;> simp [hb, ih]
+
+theorem count_rejAfterG (h : Header) (before hs : List Header) :
+    (rejAfterG before hs).count h =
+      if nameOk h then (if h ∈ before then hs.count h else hs.count h - 1) else hs.count h := by
+  induction hs generalizing before with
+  | nil => simp [rejAfterG]
+  | cons g rest ih =>
+    unfold rejAfterG
+    cases hg : nameOk g with
+    | false =>
+      simp only [Bool.false_eq_true, if_false, List.count_cons, ih]
+      by_cases hgh : g = h
+      · subst hgh; simp [hg]
+      · have : (g == h) = false := by simpa using hgh
+        simp [this]
+    | true =>
+      simp only [if_true, List.count_append, ih, List.mem_append, List.mem_singleton, List.count_cons]
+      by_cases hgh : g = h
+      · subst hgh
+        by_cases hgb : g ∈ before
+        · simp [hg, hgb] <;> omega
+        · simp [hg, hgb]
+      · have hne : ¬ h = g := fun e => hgh e.symm
+        have hbeq : (g == h) = false := by simpa using hgh
+        by_cases hgb : g ∈ before
+        · simp [hgb, hne, hbeq, hgh]
+        · simp [hgb, hne, hbeq]
+
+theorem rejAfterG_perm {hs hs' : List Header} (hp : hs.Perm hs') : (rejAfterG [] hs).Perm (rejAfterG [] hs') := by
+  rw [List.perm_iff_count]
+  intro h
+  rw [count_rejAfterG, count_rejAfterG, hp.count_eq]
+
+/-- The outcome of load `j`, arbitrary names. -/
+theorem outcomesAfterG_getElem? (before hs : List Header) (j : Nat) :
+    (outcomesAfterG before hs)[j]? = hs[j]?.map fun h =>
+      if nameOk h then (if (before ++ loadable (hs.take j)).contains h then .dup else .ok) else .badName := by
+  induction hs generalizing before j with
+  | nil => simp [outcomesAfterG]
+  | cons g rest ih =>
+    cases j with
+    | zero =>
+      unfold outcomesAfterG
+      cases hg : nameOk g <;> simp [loadable, hg]
+    | succ j =>
+      unfold outcomesAfterG
+      cases hg : nameOk g with
+      | false => simp [ih, loadable, hg]
+      | true => simp [ih, loadable, hg]
 
 end Goyang.Lemmas.Registry
